@@ -248,6 +248,14 @@ func TestSim(t *testing.T) {
 	if tier == "" {
 		tier = "quick"
 	}
+	if os.Getenv("VERIF_DUMP_PLAN") != "" {
+		// emit the plan of one (seed, index) without running it: used by the driver to
+		// build a replay file for a run that crashed the worker process
+		p := prop.Gen(envU64("VERIF_SEED", 1), tier, envInt("VERIF_START", 0))
+		p.Prop = propID
+		emit(p)
+		return
+	}
 	seed := envU64("VERIF_SEED", 1)
 	start := envInt("VERIF_START", 0)
 	count := envInt("VERIF_COUNT", 10)
